@@ -2449,20 +2449,15 @@ class _Vec(Sym):
         return self + (-o)
 
 
-def tdvp_solver_rule(chk, src, rule_sibling, rule_herm, quals=("Mps._evolve_tdvp_ps", "Mps._evolve_tdvp_ps2", "Mps._evolve_tdvp_mu_cmf"), imag_only=False):
-    """abstract run of the projector-splitting schemes with recorder stand-ins (state with iter_idx_list / _switch_direction from source, environments, effective operators as
-    tagged linear maps H_k, blocked decompositions and tensors without content, a symbolic step): every call of the Krylov exponential or of the ODE solver is recorded with
-    the map it is given applied to a symbolic vector (helper closures and helper functions of the source are simply executed).  The run is made four times - Krylov / ODE,
-    real / imaginary step.  sibling: call by call both solvers propagate exp(c H_k) with the same c on the same effective operator, and c is -i dt/2 (real step dt) resp.
-    -tau/2 (step -i tau) for the forward half steps and the opposite for the backward ones.  herm: the map handed to the Krylov exponential is a real multiple of H_k."""
+def _tdvp_run(src, qual, solver, imag, to_right, ofs=None, jw=False):
+    """one abstract run of a tangent-space scheme; returns (solver calls, bookkeeping events)"""
     import sympy as sp
     resolve = class_resolver(src, {"Mps": MPS})
     dt, tau = sp.Symbol("dt", real=True, positive=True), sp.Symbol("tau", real=True, positive=True)
-
-    def run(qual, solver, imag, to_right):
+    if True:
         fi = src.func(MPS, qual)
-        calls = []
-        n_hop = [0]
+        calls, events = [], []
+        n_hop, n_svd, n_st = [0], [0], [0]
 
         class HOp(Sym):
             def __init__(self, nops):
@@ -2474,30 +2469,50 @@ def tdvp_solver_rule(chk, src, rule_sibling, rule_herm, quals=("Mps._evolve_tdvp
                     raise AnalysisError(f"effective operator applied to {y!r}")
                 return _Vec({self._name: y.terms["1"]})
 
+        class QnList(list):
+            def __init__(self, owner, items):
+                super().__init__(items)
+                self.owner = owner
+
+            def __setitem__(self, k, v):
+                events.append(("qn", self.owner, k % 5 if isinstance(k, int) else k, v))
+                list.__setitem__(self, k, v)
+
         class St(Sym):
             def __init__(self, name):
+                n_st[0] += 1
+                name = f"{name}#{n_st[0]}"
                 super().__init__(name)
                 self._cls = "Mps"
-                self.site_num, self.to_right, self.qnidx = 4, to_right, (0 if to_right else 3)
-                self.qn = [f"qn{k}" for k in range(5)]
+                self.__dict__["version"] = 0
+                self.site_num, self.to_right = 4, to_right
+                self.__dict__["qnidx"] = 0 if to_right else 3
+                self.qn = QnList(name, [f"qn{k}" for k in range(5)])
                 self.qntot = "qntot"
                 self.evolve_config = Sym("evolve_config", ivp_solver=solver, ivp_rtol=1e-5, ivp_atol=1e-8, stat=None, adaptive=False, tdvp_cmf_midpoint=False, tdvp_cmf_c_trapz=False,
                                          force_ovlp=False, reg_epsilon=1e-10, method="method")
                 self.dtype = "dtype"
-                self.compress_config = Sym("compress_config", ofs=None, ofs_swap_jw=False)
-                self.model = "model"
+                self.compress_config = Sym("compress_config", ofs=ofs, ofs_swap_jw=jw)
+                self.model = "model v0"
+
+            def __setattr__(self, k, v):
+                if k == "qnidx":
+                    events.append(("qnidx", self._name, v))
+                object.__setattr__(self, k, v)
 
             def __len__(self):
                 return self.site_num
 
             def __getitem__(self, k):
-                return _Tn(f"site{k}")
+                return _Tn(f"site{k % 4 if isinstance(k, int) else k}")
 
             def __setitem__(self, k, v):
-                pass
+                events.append(("site", self._name, k % 4 if isinstance(k, int) else k, getattr(v, "_name", repr(v))))
 
             def copy(self):
-                return St("copy of the state")
+                c = St("copy")
+                events.append(("copy", self._name, c._name))
+                return c
 
             to_complex = copy
 
@@ -2507,12 +2522,21 @@ def tdvp_solver_rule(chk, src, rule_sibling, rule_herm, quals=("Mps._evolve_tdvp
             ensure_right_canonical = ensure_left_canonical
 
             def _get_big_qn(self, cidx, swap=False):
-                return _Tn("qnbigl"), _Tn("qnbigr"), _Tn("qnmat")
+                t = (self._name, self.version, tuple(cidx))
+                events.append(("bigqn",) + t)
+                ql, qr = _Tn("qnbigl"), _Tn("qnbigr")
+                ql.src, qr.src = t, t
+                return ql, qr, _Tn("qnmat")
 
-            def _update_mps(self, *a, **k):
+            def _update_mps(self, cstruct, cidx, qnbigl, qnbigr, percent=0):
+                events.append(("update", self._name, self.version, tuple(cidx), getattr(qnbigl, "src", None), getattr(qnbigr, "src", None), getattr(qnbigl, "_name", None), getattr(qnbigr, "_name", None)))
+                self.__dict__["version"] += 1
+                if ofs is not None:
+                    self.model = f"model v{self.version}"
                 return None
 
             def _push_cano(self, idx):
+                events.append(("push", self._name, idx))
                 return None
 
         def expm_krylov(fn, step, y0, *a, **k):
@@ -2543,19 +2567,40 @@ def tdvp_solver_rule(chk, src, rule_sibling, rule_herm, quals=("Mps._evolve_tdvp
             def __getitem__(self, k):
                 return _Tn(f"mo{k}")
 
-            def try_swap_site(self, *a, **k):
+            def try_swap_site(self, model, swap_jw, *a, **k):
+                events.append(("swap", model, swap_jw))
                 return None
+
+        def svd_stub(*a, QR=False, **k):
+            n_svd[0] += 1
+            k_ = n_svd[0]
+            events.append(("svd", k_))
+            u, v = _Tn(f"u#{k_}", (6, 4)), _Tn(f"v#{k_}", (5, 4))
+            return (u, f"qnl#{k_}", v, f"qnr#{k_}") if QR else (u, _Tn("s", (4,)), f"qnl#{k_}", v, _Tn("s", (4,)), f"qnr#{k_}")
         npx = OpenSym("np", make=lambda t: _Tn(t), iscomplex=lambda x: imag)
         it = SymInterp(src, resolve, {"np": npx, "xp": npx, "Environ": lambda *a, **k: env_, "hop_expr": lambda l, r, ops, shape, *a, **k: HOp(len(ops)), "expm_krylov": expm_krylov, "solve_ivp": solve_ivp,
                                       "asxp": lambda x: x, "asnumpy": lambda x: x, "logger": Blob("logger"), "stats": Sym("stats", describe=lambda x: "stats"), "tensordot": lambda a, b, **k: _Tn("two-site", (2, 3, 3, 5)),
-                                      "svd_qn": Sym("svd_qn", svd_qn=lambda *a, QR=False, **k: (_Tn("u", (6, 4)), "qnl", _Tn("v", (5, 4)), "qnr") if QR else (_Tn("u", (6, 4)), _Tn("s", (4,)), "qnl", _Tn("v", (5, 4)), _Tn("s", (4,)), "qnr")),
+                                      "svd_qn": Sym("svd_qn", svd_qn=svd_stub),
                                       "integrand_func_factory": integrand_func_factory, "ones": lambda *a, **k: _Tn("ones"), "transferMat": lambda *a, **k: _Tn("S"), "_mu_regularize": lambda s_, **k: _Tn("s reg"),
                                       "scipy": Sym("scipy", linalg=Sym("linalg", eigh=lambda *a, **k: (_Tn("w"), _Tn("u"))))})
         it.max_depth = 10
         me = St("state")
         step = _Sc(-sp.I * tau) if imag else _Sc(dt)
         it.call_function(fi, [me, Mpo_("mpo"), step])
-        return calls
+        return calls, events
+
+
+def tdvp_solver_rule(chk, src, rule_sibling, rule_herm, quals=("Mps._evolve_tdvp_ps", "Mps._evolve_tdvp_ps2", "Mps._evolve_tdvp_mu_cmf"), imag_only=False):
+    """abstract run of the projector-splitting schemes with recorder stand-ins (state with iter_idx_list / _switch_direction from source, environments, effective operators as
+    tagged linear maps H_k, blocked decompositions and tensors without content, a symbolic step): every call of the Krylov exponential or of the ODE solver is recorded with
+    the map it is given applied to a symbolic vector (helper closures and helper functions of the source are simply executed).  The run is made four times - Krylov / ODE,
+    real / imaginary step.  sibling: call by call both solvers propagate exp(c H_k) with the same c on the same effective operator, and c is -i dt/2 (real step dt) resp.
+    -tau/2 (step -i tau) for the forward half steps and the opposite for the backward ones.  herm: the map handed to the Krylov exponential is a real multiple of H_k."""
+    import sympy as sp
+    dt, tau = sp.Symbol("dt", real=True, positive=True), sp.Symbol("tau", real=True, positive=True)
+
+    def run(qual, solver, imag, to_right):
+        return _tdvp_run(src, qual, solver, imag, to_right)[0]
     n = 0
     for qual in quals:
         fi = src.func(MPS, qual)
@@ -2598,3 +2643,82 @@ def tdvp_solver_rule(chk, src, rule_sibling, rule_herm, quals=("Mps._evolve_tdvp
                            "real multiple of a Hermitian operator", line=fi.node.lineno,
                            detail="the Krylov exponential is given a non-Hermitian (e.g. anti-Hermitian -iH) operator: its Lanczos recurrence assumes real alpha; complex factors belong in the time step")
     return n
+
+
+def tdvp_bookkeeping_rule(chk, src, rule_labels=None, rule_fresh=None, rule_ofs=None, quals=("Mps._evolve_tdvp_ps", "Mps._evolve_tdvp_ps2", "Mps._evolve_tdvp_mu_cmf")):
+    """the same abstract runs of the tangent-space schemes, read for their bookkeeping events.
+    labels: whenever an isometric factor of the k-th blocked decomposition is stored as site s of a state (the factor itself up to transposition / regrouping, not a
+    product with something else), the label list of that factor is stored on the bond the new index lives on (u: bond s+1, v: bond s) of the same state and its label
+    centre moves to the neighbour that receives the remainder (u: s+1, v: s-1), before the next decomposition.
+    fresh: every renormalised-basis update gets the block labels computed by the same state for the same sites at the same version.
+    ofs: with on-the-fly swapping on, every update is followed at once by the operator swap with the state's current model and flag; off: never."""
+    import re
+    for qual in quals:
+        fi = src.func(MPS, qual)
+        for to_right in (True, False):
+            calls, ev = _tdvp_run(src, qual, "krylov", False, to_right)
+            tag = f"{qual} [sweep starting to the {'right' if to_right else 'left'}]"
+            # ---- label co-update
+            probs, n_iso = [], 0
+            svd_pos = [i for i, e in enumerate(ev) if e[0] == "svd"]
+            for j, i in enumerate(svd_pos):
+                k = ev[i][1]
+                seg = ev[i + 1: svd_pos[j + 1] if j + 1 < len(svd_pos) else len(ev)]
+                for e in seg:
+                    if e[0] != "site":
+                        continue
+                    m = re.fullmatch(rf"(u|v)#{k}((\.T|\.array|\.reshape\(\)|\.conj\(\)|\.copy\(\))*)", e[3])
+                    if not m:
+                        continue
+                    n_iso += 1
+                    owner, s_ = e[1], e[2]
+                    fac = m.group(1)
+                    bond, lab, centre = (s_ + 1, f"qnl#{k}", s_ + 1) if fac == "u" else (s_, f"qnr#{k}", s_ - 1)
+                    qn_ok = any(x[0] == "qn" and x[1] == owner and x[2] == bond and x[3] == lab for x in seg)
+                    wrong = [x for x in seg if x[0] == "qn" and x[1] == owner and (x[2] != bond or x[3] != lab)]
+                    cen = [x[2] for x in seg if x[0] == "qnidx" and x[1] == owner]
+                    if not qn_ok or wrong:
+                        probs.append(f"decomposition {k}: factor {fac} stored as site {s_}, label stores {[(x[2], x[3]) for x in seg if x[0] == 'qn' and x[1] == owner]}; expected {lab} on bond {bond}")
+                    elif cen[-1:] != [centre]:
+                        probs.append(f"decomposition {k}: factor {fac} stored as site {s_}, label centre set to {cen}; expected {centre}")
+            if rule_labels and svd_pos:
+                chk.ob(rule_labels, f"{tag}: {n_iso} isometric factors stored with their labels", not probs and n_iso > 0, fi.where, probs[:3] or f"{n_iso} stores, all with labels and centre", "labels of the stored factor on the bond of the new index",
+                       line=fi.node.lineno, detail=f"{qual} writes a factor of a blocked decomposition into a site tensor but drops or misplaces its label list: the stored bond labels no longer describe the non-zero blocks: " + (probs[0] if probs else ""))
+            # ---- fresh labels
+            ups = [e for e in ev if e[0] == "update"]
+            if rule_fresh and ups:
+                pf = []
+                cur = {}
+                for e in ev:
+                    if e[0] == "bigqn":
+                        cur[e[1]] = e[1:]
+                    elif e[0] == "update":
+                        _, owner, ver, cidx, sl, sr, nl, nr = e
+                        c = cur.get(owner)
+                        if c is None or sl != c or sr != c or (nl, nr) != ("qnbigl", "qnbigr") or c[1] != ver or c[2] != tuple(cidx):
+                            pf.append(f"{owner}._update_mps(sites {list(cidx)}, version {ver}) gets labels ({nl} of {sl}, {nr} of {sr}); labels last computed: {c}")
+                chk.ob(rule_fresh, f"{tag}: {len(ups)} renormalised-basis updates", not pf, fi.where, pf[:3] or "fresh", "labels of the same state, sites and version", line=fi.node.lineno,
+                       detail=f"{qual}: the renormalised-basis update uses block labels that were not computed from the current state of the same object and sites: " + (pf[0] if pf else ""))
+            # ---- operator swap
+            if rule_ofs and ups:
+                for jw in (True, False):
+                    calls2, ev2 = _tdvp_run(src, qual, "krylov", False, to_right, ofs=Sym("ofs_d"), jw=jw)
+                    po, pending = [], None
+                    for e in ev2:
+                        if pending is not None and e[0] != "swap":
+                            po.append(f"after the update of sites {pending[0]} the next step is {e[0]}, not the operator swap")
+                            pending = None
+                        if e[0] == "update":
+                            pending = (list(e[3]), e[2] + 1)
+                        elif e[0] == "swap":
+                            if pending is None:
+                                po.append("an operator swap that does not follow an update")
+                            elif e[1] != f"model v{pending[1]}" or e[2] is not jw:
+                                po.append(f"try_swap_site({e[1]}, {e[2]}); expected the state's current model (model v{pending[1]}) and its flag {jw}")
+                            pending = None
+                    if pending is not None:
+                        po.append(f"no operator swap after the last update (sites {pending[0]})")
+                    chk.ob(rule_ofs, f"{tag}, swapping on{' with Jordan-Wigner flag' if jw else ''}: operator swap", not po, fi.where, po[:3] or "paired", "every state-side swap is followed at once by the operator-side swap",
+                           line=fi.node.lineno, detail=f"{qual} may swap two sites of the state without swapping the operator with the same model and flag: " + (po[0] if po else ""))
+                if any(e[0] == "swap" for e in ev):
+                    chk.ob(rule_ofs, f"{tag}, swapping off: no operator swap", False, fi.where, "the operator is swapped although on-the-fly swapping is off", "no swap", line=fi.node.lineno)
